@@ -39,6 +39,12 @@ def main():
                     sel, links = None, all_links
                 plan.append(dict(fam=fam, impl=impl, is_set=is_set, emb='ext' if len(plan) % 2 else 'mid',
                                  nkeys=4 if is_set else 3, nvals=2, links=links, select=sel))
+    # object values that are only partially ordered (frozensets: unequal, neither smaller, nothing raises): "did this
+    # transaction change the value" is a question of equality, not of order
+    for fam in (['OO', 'IO'] if quick else ['OO', 'IO', 'LO', 'UO', 'QO']):
+        for impl in ('c', 'py'):
+            plan.append(dict(fam=fam, impl=impl, is_set=False, emb='po', nkeys=3, nvals=2, links=[(0, 0, 0)],
+                             select=[3, len(plan) % 3] if quick else None))
     results = jobs.run_jobs('harness.workers.merge_worker', plan)
     allrecs, owners = {}, {}
     mal = {}
